@@ -37,11 +37,12 @@ DEFAULT_FINDINGS = [
      "what": "bloc_errno()/bloc_strerror() after a failed bloc_execute2 report the error of whichever context failed "
              "last: the record `bloc_error` is one process-wide struct written without synchronisation (data race, and "
              "wrong code/message for the host under threads)"},
-    {"property": "C14", "id": "C14.what_static_buffer", "status": "known",
+    {"property": "C14", "id": "C14.what_static_buffer", "status": "fixed", "commit": "1cb0b5a",
      "site": "blocc/exception.h:Error::what",
-     "what": "Error::what() formats into ONE function-local static buffer: concurrent errors race on it; "
-             "BEGINStatement::docatch compares `when NAME` with that buffer, so a handled user exception in one thread can "
-             "miss (or take) a handler because another thread formatted its own error meanwhile; bloc_strerror() points into it"},
+     "what": "(repaired: the buffer is `static thread_local` now) Error::what() formatted into ONE function-local static "
+             "buffer: concurrent errors raced on it; BEGINStatement::docatch compares `when NAME` with that buffer, so a handled "
+             "user exception in one thread could miss (or take) a handler because another thread formatted its own error "
+             "meanwhile; bloc_strerror() pointed into it"},
     {"property": "C14", "id": "C14.race_rng", "status": "known",
      "site": "blocc/context.cpp:Context::random",
      "what": "data race on the function-local static generator of Context::random (random() is documented process-wide input)"},
@@ -59,7 +60,28 @@ DEFAULT_FINDINGS = [
 ]
 
 # ---- TSan report classification: (site, site) -> finding id. A site is "<file>:<function>" of the first frame under the repo.
+# A rule only ATTRIBUTES a report; whether it is tolerated is decided by the status of the finding (C14.known): a pair
+# attributed to a `fixed` finding is a VIOLATION. So the rule of C14.what_static_buffer stays (a race on Error::what()'s
+# buffer is named for what it is when `thread_local` is lost again), but nothing it matches is accepted any more.
+WHAT_SITE = "blocc/exception.h:Error::what"
+
+
+def host_reads_record_message(a, b):
+    """One access is OUTSIDE the library (site `?…`: the host reading the text bloc_strerror() handed it), the other is
+    Error::what() formatting the message FOR THE ERROR RECORD (called from a bloc_* function of bloc_capi.cpp:
+    `bloc_error_set(re.what(), re.no)`). With the buffer per thread (1cb0b5a) two threads can only meet in one buffer through
+    the process-wide record: `bloc_error.msg` set by thread A leads thread B, which asks for the message of ITS failed call,
+    into A's buffer. That is finding C14.error_record_process_wide, not a race between two what() calls."""
+    for x, y in ((a, b), (b, a)):
+        if x.startswith("?") and re.match(re.escape(WHAT_SITE) + r"<blocc/bloc_capi\.cpp:bloc_\w+$", y):
+            return True
+    return False
+
+
 RACE_RULES = [
+    # … only when the location is not the (former) process-wide static `Error::what() const::buf`: TSan names a thread_local
+    # buffer "TLS of thread Tn" or not at all
+    ("C14.error_record_process_wide", lambda a, b, loc: "Error::what" not in loc and host_reads_record_message(a, b)),
     ("C14.race_stmt_level", lambda a, b, loc: all(s.startswith(("blocc/statement.cpp:Statement::execute", "blocc/statement.h:Statement::level",
                                                                  "blocc/context.cpp:Context::onRuntimeError")) for s in (a, b))),
     ("C14.what_static_buffer", lambda a, b, loc: "Error::what" in loc or any(s.startswith("blocc/exception.h:Error::what") for s in (a, b))),
@@ -96,8 +118,14 @@ def parse_tsan(text, repo):
                     rel = path[len(repo.rstrip("/")) + 1:]
                     fn = re.sub(r"\(.*$", "", fn).replace("bloc::", "").strip()
                     fn = re.sub(r"\s+const$", "", fn)
-                    site = "%s:%s" % (rel, fn)
-                    break
+                    if site is None:
+                        site = "%s:%s" % (rel, fn)
+                        if site != WHAT_SITE:
+                            break
+                    else:
+                        # Error::what(): who asked for the message (docatch, error(), the C API's error record …)
+                        site += "<%s:%s" % (rel, fn)
+                        break
             sites.append(site or ("?" + (first or "unknown")))
         lm = re.search(r"^  Location is ([^\n]*)", blk, flags=re.M)
         loc = lm.group(1) if lm else ""
@@ -141,8 +169,9 @@ def user_when(prog):
 
 
 def strip_user_whens(prog):
-    """rename every user-named `when` clause to OTHERS: the program then
-    never evaluates `clause == rt.what()` — it lies outside the region of finding C14.what_static_buffer"""
+    """rename every user-named `when` clause to OTHERS: the program then never evaluates `clause == rt.what()`.
+    (Was used to keep 90 % of the generated programs outside the region of finding C14.what_static_buffer; the finding is
+    repaired and has no region any more, so the generators below no longer call it. Kept for replays / experiments.)"""
     def fix_whens(whens):
         # a clause is never dropped (its assignments register symbols that later code reads): a second OTHERS is legal
         return [((n if n.upper() in BUILTIN_EXC else "OTHERS"), fix(b)) for n, b in whens]
@@ -203,7 +232,8 @@ def recursion_programs():
 
 
 # programs outside the Lean interpreter's statement language (tables, tuples, random, error()): threads are compared with
-# the sequential C++ run only; under TSan they exercise _type_volatile, the RNG statics and the what() buffer
+# the sequential C++ run only; under TSan they exercise _type_volatile, the RNG statics and Error::what() (whose buffer is
+# per thread since 1cb0b5a: no report is expected from it, and one would be a violation)
 EXTRA_SOURCES = {
     "tables": 't = tab(5, 1); for i in 0 to 4 loop t.put(i, i * i); end loop; s = 0; '
               'for i in 0 to 4 loop s = s + t.at(i); end loop; u = tab(2, tab(3, "x")); w = u.at(1).at(2) + str(s); '
@@ -244,14 +274,17 @@ class C14(Check):
     rule = ("scripts of compile/clone/run/purge/free on 2..8 clones of one original, run by harness/thrprobe.cpp (a) on "
             "std::threads released together per round and (b) strictly sequentially, and by the Lean `World.apply` under a "
             "random interleaving of statement steps; programs from vlib/progen.py (functions, recursion to the limit, "
-            "handled and unhandled errors, printing into per-clone files) — same executable in every clone, different "
+            "handled and unhandled errors with user-named and built-in `when` clauses, printing into per-clone files) — same executable in every clone, different "
             "executables per clone, original running / purged / freed / interrupted meanwhile, clone of a clone, unrelated "
             "fresh context; per context the host result, the output and every variable must agree three ways and the "
             "original must be unchanged by its clones. Programs with tables/tuples/random()/error() are compared threads vs "
-            "sequential C++ only. Thorough: same scripts under ThreadSanitizer, every report classified by its site pair. "
+            "sequential C++ only. No exclusion for handler selection: since Error::what()'s buffer is thread_local (1cb0b5a) a "
+            "thread that ends differently from the sequential run in a program with user-named `when` clauses is a violation "
+            "(family stress-what: 4 threads x 3000/20000 handled user exceptions with distinct names). Thorough: same scripts "
+            "under ThreadSanitizer, every report classified by its site pair; a pair on Error::what()'s buffer is a violation. "
             "distinct = (family, script, program texts).")
     trusted_base = Check.trusted_base + [
-        "extract/shared.py (the listed cells are all the shared mutable cells of blocc/: regex listing of `mutable`, non-const `static`, non-const globals, plus the two heap cells shared by design)",
+        "extract/shared.py (the listed cells are all the shared mutable cells of blocc/: regex listing of `mutable`, non-const `static`, non-const globals, plus the two heap cells shared by design; a declaration carrying `thread_local`/`__thread` is listed apart as per-thread state)",
         "harness/thrprobe.cpp (threads really overlap: spin barrier; no interleaving is forced, coverage of interleavings is statistical)",
         "ThreadSanitizer (thorough tier) for the absence of unlisted data races on the executed paths",
     ]
@@ -289,9 +322,15 @@ class C14(Check):
             self.stats.setdefault("gen_changed", []).extend(changed)
         for e in errors:
             self.broken_ties.append("extractor: " + e)
-        self.stats["shared_cells"] = ["%s:%d %s [%s]" % (c[0], c[1], c[2], c[3]) for c in cells]
-        log("shared mutable cells (%d):" % len(cells))
-        for c in cells:
+        sh = [c for c in cells if not shared.is_thread_local(c)]
+        tl = [c for c in cells if shared.is_thread_local(c)]
+        self.stats["shared_cells"] = ["%s:%d %s [%s]" % (c[0], c[1], c[2], c[3]) for c in sh]
+        self.stats["thread_local_cells"] = ["%s:%d %s [%s]" % (c[0], c[1], c[2], c[3]) for c in tl]
+        log("shared mutable cells (%d):" % len(sh))
+        for c in sh:
+            log("   %s:%d: %s [%s]" % (c[0], c[1], c[2], c[3]))
+        log("per-thread cells (%d, not shared):" % len(tl))
+        for c in tl:
             log("   %s:%d: %s [%s]" % (c[0], c[1], c[2], c[3]))
 
     # ------------------------------------------------------------------ scenarios
@@ -316,7 +355,7 @@ class C14(Check):
         def gen_prog(clean, nst=None, funcs=True, errors=0.12):
             g = progen.Gen(r, nvars=2, funcs=funcs, errors=errors)
             p = g.program(nstmts=nst or r.randint(3, 7), depth=2)
-            return (strip_user_whens(p) if clean else p), g
+            return p, g    # `clean` (rename user-named when clauses away) is history: no finding has that region any more
 
         def same(k, prog, orig_runs_first=False, orig_runs_too=False, concurrent_clone=False, family="same"):
             """one executable compiled in the original, run in k clones at once"""
@@ -334,7 +373,7 @@ class C14(Check):
             runs = clones + ([0] if orig_runs_too else [])
             rounds.append(",".join("x%d.0" % c for c in runs))
             mops += ["s%d.0" % c for c in runs] + self.model_schedule(runs)
-            add(family, "/".join(rounds), mops, progs=[prog], meta={"k": k, "region_what": user_when(prog)})
+            add(family, "/".join(rounds), mops, progs=[prog], meta={"k": k, "user_when": user_when(prog)})
 
         # ---- A: same executable in 2..8 clones
         na = 420 if quick else 3000
@@ -352,12 +391,12 @@ class C14(Check):
         for i in range(nb):
             k = 2 + i % 7
             g = progen.Gen(r, nvars=2, funcs=True, errors=0.1)
-            p0 = strip_user_whens(g.program(nstmts=r.randint(1, 3), depth=1))
+            p0 = g.program(nstmts=r.randint(1, 3), depth=1)
             scope = {"%s%d" % (t.upper(), j) for t in "idbs" for j in (1, 2)}
             progs = [p0]
             for c in range(1, k + 1):
                 body = [g.stmt(2, set(scope), False, None) for _ in range(r.randint(2, 5))]
-                progs.append(strip_user_whens(body))
+                progs.append(body)
             clones = list(range(1, k + 1))
             rounds = ["c0.0.0", "x0.0"] + ["k0.%d" % c for c in clones] + ["c%d.%d.%d" % (c, c, c) for c in clones]
             rounds.append(",".join("x%d.%d" % (c, c) for c in clones))
@@ -406,7 +445,9 @@ class C14(Check):
         add("witness-free-order", "c0.0.0/k0.1/f0/f1", ["c0.0", "k0.1", "f0", "f1"], progs=[pf], meta={"orig_freed_first": True})
         add("witness-free-order-ok", "c0.0.0/k0.1/f1/f0", ["c0.0", "k0.1", "f1", "f0"], progs=[pf])
 
-        # ---- E: stress witnesses of the races with script-/host-visible effect (threads only make a difference)
+        # ---- E: stress witnesses of the races with script-/host-visible effect (threads only make a difference):
+        # stress-errno = the open finding C14.error_record_process_wide; stress-what = regression witness of the repaired
+        # C14.what_static_buffer (every thread must count all its handled exceptions, as the sequential run does)
         reps = 6 if quick else 30
         for i in range(reps):
             k = 8
@@ -424,14 +465,14 @@ class C14(Check):
             srcs = [what_stress_source(names[c], nloop) for c in range(k + 1)]
             rounds = ["c0.0.0"] + ["k0.%d" % c for c in range(1, k + 1)] + ["c%d.%d.%d" % (c, c, c) for c in range(1, k + 1)]
             rounds.append(",".join("x%d.%d" % (c, c) for c in range(1, k + 1)))
-            add("stress-what", "/".join(rounds), None, sources=srcs, meta={"k": k, "region_what": True})
+            add("stress-what", "/".join(rounds), None, sources=srcs, meta={"k": k, "fixed": "C14.what_static_buffer"})
 
         # ---- F: programs outside the model's statement language: threads vs sequential C++ only
         for name, src in EXTRA_SOURCES.items():
             for k in (2, 4, 8):
                 rounds = ["c0.0.0"] + ["k0.%d" % c for c in range(1, k + 1)] + [",".join("x%d.0" % c for c in range(1, k + 1))]
                 add("extra-" + name, "/".join(rounds), None, sources=[src],
-                    meta={"k": k, "region_what": name in ("errorfn",), "random": name == "random"})
+                    meta={"k": k, "random": name == "random"})
         self.stats["scenarios"] = len(out)
         fam = {}
         for s in out:
@@ -538,7 +579,6 @@ class C14(Check):
                 if res != "ok":
                     return self.violation("a generated program was rejected by the parser (%s)" % res, sc, raw)
         # ---- threads vs sequential C++
-        region_what = sc.meta.get("region_what", False)
         for raw, d, err in thrs:
             diffs = self.diff_runs(seq, d, ignore_random=sc.meta.get("random", False))
             if not diffs:
@@ -548,10 +588,7 @@ class C14(Check):
                 if self.known("C14.error_record_process_wide", "thr " + sc.script, diffs[0][1]):
                     tally("known:errno-of-another-thread")
                     continue
-            if region_what and all(x[0] in ("errno", "what-region") for x in self.mark_what(diffs)):
-                if self.known("C14.what_static_buffer", "thr " + sc.script + " | " + sc.sources[-1][:60].replace("\n", " "), diffs[0][1]):
-                    tally("known:what-buffer")
-                    continue
+            # (no tolerance for programs with user-named `when` clauses any more: C14.what_static_buffer is repaired)
             return self.violation("threads differ from the sequential C++ run: " + "; ".join(x[1] for x in diffs[:3]), sc, raw, model=seq_raw, stderr=err)
         tally("threads=sequential")
         # ---- original untouched by its clones (when it did not run / was not purged itself after the clones were made)
@@ -616,10 +653,6 @@ class C14(Check):
         tally("sequential=model")
         if len(self.samples) < 8 and self.rng.random() < 0.02:
             self.samples.append({"family": sc.family, "script": sc.script, "source": sc.sources[0][:400], "threads": thrs[0][0][:300], "model": mraw[:300]})
-
-    @staticmethod
-    def mark_what(diffs):
-        return [("what-region", d[1]) if d[0] != "errno" else d for d in diffs]
 
     @staticmethod
     def diff_runs(a, b, ignore_random=False):
